@@ -1517,6 +1517,40 @@ class TextQueryBackend(Backend):
                 "case_sensitive_contains_expression"
             ]
 
+    def cidr_expansion_converts_to_or(
+        self,
+        cond: (
+            ConditionItem
+            | ConditionFieldEqualsValueExpression
+            | ConditionValueExpression
+            | CorrelationConditionItem
+            | SigmaRuleReference
+            | None
+        ),
+    ) -> bool:
+        """
+        Check if the condition is a CIDR match that is expanded into OR-linked wildcard matches
+        because the backend has no native CIDR expression and the result is not an in-expression.
+        """
+        if not (
+            isinstance(cond, ConditionFieldEqualsValueExpression)
+            and isinstance(cond.value, SigmaCIDRExpression)
+            and self.cidr_expression is None
+        ):
+            return False
+        expanded = cond.value.expand()
+        if len(expanded) < 2:
+            return False
+        return not self.decide_convert_condition_as_in_expression(
+            ConditionOR(
+                [
+                    ConditionFieldEqualsValueExpression(cond.field, SigmaString(network))
+                    for network in expanded
+                ]
+            ),
+            ConversionState(),
+        )
+
     def compare_precedence(
         self,
         outer: ConditionItem | CorrelationConditionItem,
@@ -1557,10 +1591,12 @@ class TextQueryBackend(Backend):
         if isinstance(inner, SigmaRuleReference):
             # Rule references have highest precedence (like field expressions)
             idx_inner = -1
-        elif isinstance(
-            inner, (ConditionFieldEqualsValueExpression, ConditionValueExpression)
-        ) and isinstance(inner.value, SigmaExpansion):
-            # Special case: Conditions containing a SigmaExpansion value convert into OR conditions
+        elif (
+            isinstance(inner, (ConditionFieldEqualsValueExpression, ConditionValueExpression))
+            and isinstance(inner.value, SigmaExpansion)
+        ) or self.cidr_expansion_converts_to_or(inner):
+            # Special case: Conditions containing a SigmaExpansion value (or a CIDR value that
+            # is expanded into wildcard matches) convert into OR conditions
             inner_class: type[
                 ConditionItem
                 | CorrelationConditionItem
@@ -1717,9 +1753,15 @@ class TextQueryBackend(Backend):
         if arg is None:
             return None
         try:
-            if arg.__class__ in self.precedence or (
-                isinstance(arg, (ConditionFieldEqualsValueExpression, ConditionValueExpression))
-                and isinstance(arg.value, SigmaExpansion)
+            if (
+                arg.__class__ in self.precedence
+                or (
+                    isinstance(
+                        arg, (ConditionFieldEqualsValueExpression, ConditionValueExpression)
+                    )
+                    and isinstance(arg.value, SigmaExpansion)
+                )
+                or self.cidr_expansion_converts_to_or(arg)
             ):  # group if AND or OR condition (or an expansion that converts into an OR) is negated
                 converted_group: str | DeferredQueryExpression | None = (
                     self.convert_condition_group(arg, state)
